@@ -352,6 +352,12 @@ func policies(cps []concPolicy, r *result) {
 		check("yaml.Marshal", y, yerr)
 		j, jerr := json.Marshal(Config{literal(cp)})
 		check("json.Marshal", j, jerr)
+		if emitDir != "" && yerr == nil && jerr == nil {
+			// the marshalled forms as files, under the names a user would give them
+			os.WriteFile(fmt.Sprintf("%s/pol_%d.m.yaml", emitDir, i), y, 0o644)
+			os.WriteFile(fmt.Sprintf("%s/pol_%d.json", emitDir, i), j, 0o644)
+			os.WriteFile(fmt.Sprintf("%s/pol_%d.JSON", emitDir, i), j, 0o644)
+		}
 		if len(cp.Groups) > 0 && len(cp.Groups[0].NWC) > 0 {
 			r.NonTrivial++
 		}
